@@ -3,7 +3,7 @@
 # (jarsigner, OpenSSL smime/cms/ts/dgst, gpgv/gpg, dpkg-deb, the JDK XML-Signature validator) and to reference computations written
 # from the specifications in Python (vlib/c05_ref.py, vlib/c05_der.py), which share no code with relic.  The oracle is model-free:
 # "the outside implementation accepts" and "the digest embedded in the signature equals the specification's digest of the artefact".
-import base64, concurrent.futures, copy, hashlib, json, os, re, struct, subprocess, threading, time, traceback, zipfile, io
+import base64, concurrent.futures, copy, hashlib, json, os, re, shutil, struct, subprocess, threading, time, traceback, zipfile, io
 from vlib import e2e, formats
 from vlib import c05_der as der
 from vlib import c05_ref as ref
@@ -14,18 +14,12 @@ from urllib.parse import unquote
 from vlib.c05_tools import Tools, run as trun
 from vlib.c05_tsa import TSA
 
-# Keys of suspected genuine defects of relic (the real code violates the property on the replayed input).  They are printed as
-# SUSPECTED-DEFECT lines and do not fail the run; everything else does.  Nothing is suppressed by pattern: exact keys only.
-SUSPECTED = [
-    # relic writes the authenticated attributes of Authenticode signatures in insertion order (statementType, opusInfo, contentType, messageDigest) and
-    # signs that encoding; RFC 2315 9.3 / RFC 5652 5.4 prescribe the DER encoding (SET OF sorted).  OpenSSL and Windows hash the bytes as received and
-    # accept; a verifier that re-encodes the set in DER (BouncyCastle does) computes another digest.
-    "C05:spec:pkcs7:signedattrs-not-der-sorted",
-    # ECDSA in XML signatures (DESIGN F21; the XML side belongs to C19, the JDK observations are recorded here)
-    "C05:spec:appmanifest:ecdsa-sigvalue-not-fixed-width:p521", "C05:spec:appmanifest:ecdsa-sigvalue-not-fixed-width:p384",
-    "C05:spec:appmanifest:ecdsa-sigvalue-not-fixed-width:p256",
-    "C05:spec:appmanifest:jdk-validator-rejects-ecdsa-strongnamesignature",
-]
+# Genuine defects of relic found by this check are reported like everything else, through ctx.violation with their specific key;
+# /verif/known_findings.json turns the registered keys into KNOWN-FINDING lines (exact keys only, nothing is suppressed by pattern):
+#   C05:spec:pkcs7:signedattrs-not-der-sorted                        authenticated attributes emitted and signed in insertion order, not in DER order
+#   C05:spec:cat:pkcs7-signedattrs-absent-for-non-data-content        `relic sign -T cat` signs the CTL without authenticated attributes
+#   C05:spec:appmanifest:ecdsa-sigvalue-not-fixed-width:<p256|p384|p521>   XML-DSig ECDSA SignatureValue not padded to the field width (same defect as C19:sigvalue:ecdsa-short:*)
+#   C05:spec:appmanifest:jdk-validator-rejects-ecdsa-strongnamesignature   consequence of the former, as seen by the stock JDK validator
 
 PGP_HASH_IDS = {"sha1": 2, "sha256": 8, "sha384": 9, "sha512": 10, "sha224": 11}
 KEY_CURVE_BYTES = {"p256": 32, "p384": 48, "p521": 66}
@@ -80,6 +74,9 @@ class S:
         self.evals = 0
         self.distinct = set()
         self.facts = {}
+        self.tools = {}         # reference tool / reference computation -> [accepted, rejected]
+        self.skips = []         # (sub-check, reason): the tool is missing or failed its capability probe
+        self.artefacts = {}     # role -> path (input, signed output)
 
     def cmd(self, c):
         self.cmds.append(" ".join(str(x) for x in c))
@@ -93,8 +90,25 @@ class S:
             c += ["--digest", digest]
         c += list(flags)
         self.cmd(c)
+        self.artefacts["input"], self.artefacts["signed"] = infile, outfile
         p = subprocess.run(c, stdout=subprocess.PIPE, stderr=subprocess.PIPE, timeout=300)
         return p.returncode, (p.stderr.decode(errors="replace") + p.stdout.decode(errors="replace"))[-600:]
+
+    def tool(self, name, accepted):
+        """tally of what an outside implementation / a reference computation said about relic's output"""
+        t = self.tools.setdefault(name, [0, 0])
+        t[0 if accepted else 1] += 1
+        return accepted
+
+    def skip(self, what, reason):
+        self.skips.append((what, reason))
+
+    def need(self, *tools):
+        """True when every named tool is installed; otherwise the sub-check is skipped (recorded, never an alarm)"""
+        missing = [t for t in tools if not self.env.tools.available.get(t)]
+        if missing:
+            self.skip("%s: sub-checks using %s" % (self.fmt, "/".join(tools)), "%s not installed in this sandbox" % ", ".join(missing))
+        return not missing
 
     def check(self, ok, what, detail, found=True, **extra):
         """one evaluation of the oracle; `what` is the key suffix after C05:spec:<format>:"""
@@ -129,8 +143,11 @@ def check_timestamp(s, signature, token, label):
     except (der.DerError, IndexError, ValueError) as e:
         s.check(False, label + "-timestamp-malformed", "timestamp token does not parse: %s" % e)
         return
+    if not s.need("openssl"):
+        return
     ok, text, cmd = t.ts_verify(token, signature, tsa.cafile)
     s.cmd(cmd)
+    s.tool("openssl ts -verify", ok)
     s.check(ok, label + "-openssl-ts-rejects", "openssl ts -verify rejects the embedded timestamp token: " + text[-300:])
 
 
@@ -146,48 +163,96 @@ def check_p7(s, blob, digest, keyname, content=None, want_ctype=None, padded=Fal
         tail = blob[sd["total_len"]:]
         s.check(len(tail) < 8 and not any(tail), label + "-padding", "%d bytes after the SignedData, not all zero or more than alignment needs" % len(tail))
         blob = blob[:sd["total_len"]]
-    ok, perr, pcmd = t.asn1parse_ok(blob)
-    s.cmd(pcmd)
-    s.check(ok, label + "-openssl-asn1parse", "openssl asn1parse refuses the blob: " + perr)
+    have_openssl = s.need("openssl")
+    if have_openssl:
+        ok, perr, pcmd = t.asn1parse_ok(blob)
+        s.cmd(pcmd)
+        s.tool("openssl asn1parse", ok)
+        s.check(ok, label + "-openssl-asn1parse", "openssl asn1parse refuses the blob: " + perr)
     keytype = s.env.kit.keys[keyname]["type"]
     s.check(sd["digest_algs"] == [digest], label + "-digest-algorithms", "SignedData.digestAlgorithms %s, requested %s" % (sd["digest_algs"], digest))
     s.check(len(sd["signers"]) == 1, label + "-signer-count", "%d SignerInfos" % len(sd["signers"]))
     if not sd["signers"]:
         return sd
     si = sd["signers"][0]
+    ctype = sd["econtent_type"]
     s.check(si["digest_alg"] == digest, label + "-signer-digest-algorithm", "SignerInfo.digestAlgorithm %s, requested %s" % (si["digest_alg"], digest))
     s.check(sig_alg_consistent(si, digest, keytype), label + "-signature-algorithm", "SignerInfo.digestEncryptionAlgorithm %s with a %s key and %s" % (si["sig_alg"], keytype, digest))
     leaf = der.find_signer_cert(sd, si)
     s.check(leaf is not None, label + "-signer-cert-missing", "no certificate matching issuerAndSerialNumber is included")
     if want_ctype:
-        s.check(sd["econtent_type"] == want_ctype, label + "-content-type", "contentType %s, expected %s" % (sd["econtent_type"], want_ctype))
+        s.check(ctype == want_ctype, label + "-content-type", "contentType %s, expected %s" % (ctype, want_ctype))
+    spki = None
+    if leaf is not None:
+        try:
+            spki = der.spki_of_cert(leaf)["spki"]
+        except (der.DerError, IndexError) as e:
+            s.check(False, label + "-signer-cert-malformed", "signer certificate does not parse: %s" % e)
+    # The content octets the message digest is taken over (RFC 2315 9.3 / Authenticode: the contents octets of the content value,
+    # identifier and length octets excluded; for id-data that is the OCTET STRING's value = RFC 5652 5.4)
+    data = sd["econtent_octets"] if sd["econtent"] is not None else content
     if si["auth_raw"] is not None:
         s.evals += 1
         if not si["auth_sorted"]:
-            s.problem("C05:spec:pkcs7:signedattrs-not-der-sorted", "[%s] " % s.fmt +
-                "authenticatedAttributes SET OF is not in DER order (%s): RFC 5652 5.4 digests the DER encoding, a verifier that re-encodes computes another digest" % si["auth_order"],
+            strict = None
+            if spki is not None and have_openssl:
+                # what a verifier does that decodes the set and digests its DER encoding, as RFC 5652 5.4 words it
+                enc = [c.raw for c in der.parse(si["auth_raw"]).children()]
+                width = max(len(e) for e in enc)
+                enc.sort(key=lambda e: e.ljust(width, b"\0"))
+                body = b"".join(enc)
+                hdr = der.parse(si["auth_raw"])
+                resorted = b"\x31" + si["auth_raw"][1:hdr.hl] + body
+                strict, _, scmd = t.sig_verify(spki, digest, si["signature"], resorted)
+                s.cmd(scmd)
+            s.problem("C05:spec:pkcs7:signedattrs-not-der-sorted", "[%s] " % s.fmt + ("(signature checked against the DER re-encoding of the set: %s) " % ("accepted" if strict else "REJECTED") if strict is not None else "") +
+                      "authenticatedAttributes SET OF is emitted, and signed, in the order %s, which is not the DER order (X.690 11.6): RFC 2315 9.3 / RFC 5652 5.4 define the signed digest over the DER "
+                      "encoding of the set, so a verifier that decodes and re-encodes (BouncyCastle does) computes another digest; verifiers that hash the octets as received (OpenSSL, Windows, the JDK) accept" % si["auth_order"],
                       order=si["auth_order"])
-        s.check(der.attr_content_type(si) == sd["econtent_type"], label + "-contenttype-attribute", "content-type attribute %s != %s" % (der.attr_content_type(si), sd["econtent_type"]))
-        data = sd["econtent_octets"] if sd["econtent"] is not None else content
+        s.check(der.attr_content_type(si) == ctype, label + "-contenttype-attribute", "content-type attribute %s != %s" % (der.attr_content_type(si), ctype))
         if data is not None:
-            s.check(der.attr_message_digest(si) == der.H(digest, data), label + "-message-digest", "messageDigest attribute != %s of the content octets" % digest)
+            s.check(s.tool("reference: messageDigest attribute", der.attr_message_digest(si) == der.H(digest, data)), label + "-message-digest", "messageDigest attribute != %s of the content octets" % digest)
         # the signature itself, by hand: digest of the attributes re-tagged as SET (RFC 2315 9.3), checked by openssl dgst
-        if leaf is not None:
-            spki = der.spki_of_cert(leaf)["spki"]
+        if spki is not None and have_openssl:
             okv, verr, vcmd = t.sig_verify(spki, digest, si["signature"], b"\x31" + si["auth_raw"][1:])
             s.cmd(vcmd)
+            s.tool("openssl dgst -verify", okv)
             s.check(okv, label + "-signature-over-attributes", "openssl dgst -verify rejects the signature over the SET OF attributes: " + verr)
-    # the whole structure through OpenSSL
+    else:
+        # no authenticated attributes: the signature is taken over the content octets directly.  Allowed for id-data only:
+        # RFC 2315 9.2 "[authenticatedAttributes] must be present if the content type of the ContentInfo value being signed is not data",
+        # RFC 5652 5.3 "MUST be present if the content type of the EncapsulatedContentInfo value being signed is not id-data".
+        s.check(ctype == "data", label + "-signedattrs-absent-for-non-data-content",
+                "SignerInfo has no authenticatedAttributes although the content type is %s: RFC 2315 9.2 / RFC 5652 5.3 require at least content-type and message-digest attributes "
+                "for every content type other than id-data (Microsoft-signed catalogs carry contentType, messageDigest, SpcSpOpusInfo, SpcStatementType)" % ctype)
+        if spki is not None and data is not None and have_openssl:
+            okv, verr, vcmd = t.sig_verify(spki, digest, si["signature"], data)
+            s.cmd(vcmd)
+            s.tool("openssl dgst -verify", okv)
+            s.check(okv, label + "-signature-over-content", "openssl dgst -verify rejects the signature over the content octets: " + verr)
+    # the whole structure through OpenSSL, when the installed OpenSSL is able to judge this content type (probed at start-up with a
+    # genuine third-party signature: OpenSSL 3.0/3.1 reject Microsoft's own Authenticode signatures)
     detached = sd["econtent"] is None
-    okp, got, perr, pcmd = t.p7_verify(blob, content if detached else None)
-    s.cmd(pcmd)
-    s.check(okp, label + "-openssl-rejects", "openssl smime -verify fails: " + perr)
-    if okp and not detached:
-        s.check(got == sd["econtent_octets"], label + "-openssl-content", "content written by openssl differs from the encapsulated content octets")
-    if sd["econtent_type"] == "data":
-        okc, gotc, cerr, ccmd = t.cms_verify(blob, content if detached else None)
-        s.cmd(ccmd)
-        s.check(okc, label + "-openssl-cms-rejects", "openssl cms -verify fails: " + cerr)
+    cap = t.cap("openssl-smime-verify:" + ctype)
+    if cap["ok"]:
+        okp, got, perr, pcmd = t.p7_verify(blob, content if detached else None)
+        s.cmd(pcmd)
+        s.tool("openssl smime -verify [%s]" % ctype, okp)
+        s.check(okp, label + "-openssl-rejects", "openssl smime -verify fails: " + perr)
+        if okp and not detached:
+            s.check(got == sd["econtent_octets"], label + "-openssl-content", "content written by openssl differs from the encapsulated content octets")
+    else:
+        s.skip("openssl smime -verify of the whole SignedData, content type %s" % ctype,
+               "capability probe failed (%s): %s; the claim is carried by the by-hand verification (messageDigest = H(content octets), openssl dgst -verify of the signature over the re-tagged attributes)" % (cap["probe"], cap["output"][-200:]))
+    if ctype == "data":
+        if t.cap("openssl-cms-verify:data")["ok"]:
+            okc, gotc, cerr, ccmd = t.cms_verify(blob, content if detached else None)
+            s.cmd(ccmd)
+            s.tool("openssl cms -verify [data]", okc)
+            s.check(okc, label + "-openssl-cms-rejects", "openssl cms -verify fails: " + cerr)
+        else:
+            c2 = t.cap("openssl-cms-verify:data")
+            s.skip("openssl cms -verify, content type data", "capability probe failed (%s): %s" % (c2["probe"], c2["output"][-200:]))
     if timestamp:
         tok = si["unauth"].get(timestamp)
         s.check(bool(tok), label + "-timestamp-missing", "key is configured with timestamp: true but the SignerInfo has no %s attribute (unauthenticated attributes: %s)" % (timestamp, sorted(si["unauth"])))
@@ -199,7 +264,7 @@ def check_p7(s, blob, digest, keyname, content=None, want_ctype=None, padded=Fal
     return sd
 
 
-def check_indirect(s, sd, digest, want_type, expect_digest, what):
+def check_indirect(s, sd, digest, want_type, expect_digest, what, tool=None):
     """SpcIndirectDataContent: digest algorithm and the digest itself against the reference computation"""
     if sd is None or sd["econtent"] is None:
         return None
@@ -212,6 +277,8 @@ def check_indirect(s, sd, digest, want_type, expect_digest, what):
     if want_type:
         s.check(ind["data_type"] == want_type, "spc-data-type", "SpcAttributeTypeAndOptionalValue type %s, expected %s" % (ind["data_type"], want_type))
     if expect_digest is not None:
+        if tool:
+            s.tool(tool, ind["digest"] == expect_digest)
         s.check(ind["digest"] == expect_digest, what, "digest in the signature %s != reference computation %s" % (ind["digest"].hex(), expect_digest.hex()),
                 embedded=ind["digest"].hex(), reference=expect_digest.hex())
     return ind
@@ -232,14 +299,17 @@ def scen_jar(s, recipe, key, digest, flags=(), remote=False, resign_with=None, s
     if rc != 0:
         return s.problem("C05:harness:sign-failed:jar", "relic sign failed on a well-formed JAR: " + txt, found=False)
     # 1. jarsigner
-    js = t.jarsigner(out, lift_sha1_policy=(digest == "sha1"))
-    s.cmd(js["cmd"])
-    s.check(js["verified"] and not js["treated_unsigned"], "jarsigner-rejects", "jarsigner -verify does not report 'jar verified.': " + js["text"][-400:])
     z = zipfile.ZipFile(out)
     payload = [n for n in z.namelist() if not n.endswith("/") and not re.match(r"(?i)^META-INF/(MANIFEST\.MF|[^/]+\.(SF|RSA|DSA|EC)|SIG-[^/]*)$", n)]
-    unsigned = [n for n in payload if js["entries"].get(n) != (True, True)]
-    if js["verified"]:
-        s.check(not unsigned, "jarsigner-unsigned-entries", "jarsigner does not flag %d of %d entries as signed+in manifest, e.g. %r" % (len(unsigned), len(payload), unsigned[:3]))
+    js = None
+    if s.need("jarsigner"):
+        js = t.jarsigner(out, lift_sha1_policy=(digest == "sha1"))
+        s.cmd(js["cmd"])
+        s.tool("jarsigner -verify", js["verified"] and not js["treated_unsigned"])
+        s.check(js["verified"] and not js["treated_unsigned"], "jarsigner-rejects", "jarsigner -verify does not report 'jar verified.': " + js["text"][-400:])
+        unsigned = [n for n in payload if js["entries"].get(n) != (True, True)]
+        if js["verified"]:
+            s.check(not unsigned, "jarsigner-unsigned-entries", "jarsigner does not flag %d of %d entries as signed+in manifest, e.g. %r" % (len(unsigned), len(payload), unsigned[:3]))
     # 2. reference re-computation of every digest in MANIFEST.MF and *.SF
     try:
         facts, probs = ref.jar_check(out, digest)
@@ -247,6 +317,7 @@ def scen_jar(s, recipe, key, digest, flags=(), remote=False, resign_with=None, s
         s.check(False, "reference-reader-fails", "reference reader cannot process the signed JAR: %r" % e)
         return
     s.evals += 3 + 2 * facts.get("covered", 0)
+    s.tool("reference: JAR manifest / .SF digests", not probs)
     for sl, d in probs:
         s.check(False, sl, d)
     s.check(facts.get("covered") == len(payload), "coverage", "reference covered %s entries, zip has %d payload entries" % (facts.get("covered"), len(payload)))
@@ -263,7 +334,7 @@ def scen_jar(s, recipe, key, digest, flags=(), remote=False, resign_with=None, s
     # 3. the PKCS#7 block through OpenSSL
     inline = "--inline-signature" in flags
     sd = check_p7(s, facts["block_bytes"], digest, key, content=facts["sf_bytes"], want_ctype="data", label="block", timestamp="timeStampToken" if ts else None)
-    if ts:
+    if ts and js is not None:
         s.check(js["timestamped"], "jarsigner-ignores-timestamp", "jarsigner does not report a timestamp for the entries", found=False)
     if sd is not None:
         s.check((sd["econtent"] is not None) == inline, "block-detachedness", "signature block %s the .SF although --inline-signature was %s" % ("embeds" if sd["econtent"] is not None else "does not embed", inline), found=False)
@@ -285,10 +356,11 @@ def pe_common(s, out_bytes, digest, key, page_hashes, ts=False):
     blob = probs_t[0][2]
     sd = check_p7(s, blob, digest, key, want_ctype="spcIndirectData", padded=True, timestamp="msTimeStampToken" if ts else None)
     want = ref.pe_image_hash(out_bytes, digest)
-    ind = check_indirect(s, sd, digest, "spcPeImageData", want, "image-hash-mismatch")
+    ind = check_indirect(s, sd, digest, "spcPeImageData", want, "image-hash-mismatch", tool="reference: Authenticode PE image hash")
     L = ref.pe_layout(out_bytes)
     got_ck = struct.unpack_from("<I", out_bytes, L["cksum_off"])[0]
     want_ck = ref.pe_checksum(out_bytes)
+    s.tool("reference: PE checksum", got_ck == want_ck)
     s.check(got_ck == want_ck, "checksum-mismatch", "CheckSum field %#010x != reference PE checksum %#010x" % (got_ck, want_ck), embedded=got_ck, reference=want_ck)
     if ind is not None:
         if page_hashes:
@@ -297,6 +369,7 @@ def pe_common(s, out_bytes, digest, key, page_hashes, ts=False):
             if ind["page_hashes"] is not None:
                 s.check(ind["page_hash_type"] == {"sha1": "spcPageHashV1", "sha256": "spcPageHashV2"}[digest], "page-hash-oid", "page hash attribute type %s for %s" % (ind["page_hash_type"], digest))
                 hl = hashlib.new(digest).digest_size + 4
+                s.tool("reference: Authenticode page hashes", ind["page_hashes"] == wantph)
                 s.check(ind["page_hashes"] == wantph, "page-hashes-mismatch",
                         "page hash table differs from the reference: %d vs %d entries, first difference at entry %s" %
                         (len(ind["page_hashes"]) // hl, len(wantph) // hl, next((i for i in range(min(len(wantph), len(ind["page_hashes"])) // hl) if ind["page_hashes"][i * hl:(i + 1) * hl] != wantph[i * hl:(i + 1) * hl]), "end")))
@@ -350,6 +423,7 @@ def scen_cab(s, recipe, key, digest, remote=False, resign=False, ts=False):
         for sl, dd in probs:
             s.check(False, sl, dd)
         s.evals += 4
+        s.tool("reference: CAB reader (signature header, offsets)", not probs)
         pay_o, pay_s = ref.cab_payload(orig), ref.cab_payload(d)
         s.check(pay_o == pay_s, "payload-changed", "files / verified data blocks read by the reference CAB reader differ between input and signed output")
         c = ref.cab_parse(d)
@@ -363,7 +437,7 @@ def scen_cab(s, recipe, key, digest, remote=False, resign=False, ts=False):
     if blob is None:
         return
     sd = check_p7(s, blob, digest, key, want_ctype="spcIndirectData", padded=True, timestamp="msTimeStampToken" if ts else None)
-    check_indirect(s, sd, digest, "spcCabImageData", want, "cab-digest-mismatch")
+    check_indirect(s, sd, digest, "spcCabImageData", want, "cab-digest-mismatch", tool="reference: CAB header/content digest")
     s.distinct.add(("cab", recipe, digest, env.kit.keys[key]["type"], remote, resign))
 
 
@@ -395,6 +469,7 @@ def scen_msi(s, recipe, key, digest, flags=(), remote=False, resign=False, ts=Fa
         if ref.MSI_SIGEX in kids:
             pre = ref.msi_prehash(cfb, digest)
             got = cfb.stream(kids[ref.MSI_SIGEX])
+            s.tool("reference: MsiDigitalSignatureEx pre-hash", got == pre)
             s.check(got == pre, "prehash-mismatch", "MsiDigitalSignatureEx %s != reference pre-hash %s" % (got.hex(), pre.hex()), embedded=got.hex(), reference=pre.hex())
         want = ref.msi_digest(cfb, digest, pre)
         s.check(ref.msi_payload(cfb) == ref.msi_payload(cfo), "payload-changed", "streams/storages read by the reference CFB reader differ between input and signed output")
@@ -403,7 +478,7 @@ def scen_msi(s, recipe, key, digest, flags=(), remote=False, resign=False, ts=Fa
         s.check(False, "reference-reader-fails", "reference CFB reader cannot process the signed file: %r" % e)
         return
     sd = check_p7(s, blob, digest, key, want_ctype="spcIndirectData", timestamp="msTimeStampToken" if ts else None)
-    check_indirect(s, sd, digest, "spcSipInfo", want, "msi-digest-mismatch")
+    check_indirect(s, sd, digest, "spcSipInfo", want, "msi-digest-mismatch", tool="reference: MSI stream-order digest")
     s.distinct.add(("msi", recipe, digest, env.kit.keys[key]["type"], tuple(flags), remote, resign))
 
 
@@ -436,6 +511,7 @@ def scen_apk(s, recipe, key, digest, remote=False, v1_first=False):
             "digest ids %s, signature ids %s, expected [%#x]" % ([hex(i) for i, _ in sg["digests"]], [hex(i) for i, _ in sg["signatures"]], want_id))
     want = ref.apk_v2_digest(d, digest, info)
     got = sg["digests"][0][1] if sg["digests"] else b""
+    s.tool("reference: APK v2 chunked digest", got == want)
     s.check(got == want, "v2-digest-mismatch", "v2 digest in the signature %s != reference chunked digest %s (contents %d bytes, CD %d bytes)" %
             (got.hex(), want.hex(), info["block_off"], info["eocd"]["cd_size"]), embedded=got.hex(), reference=want.hex())
     s.check(bool(sg["certs"]), "v2-no-certificate", "no certificate in signed data")
@@ -449,13 +525,15 @@ def scen_apk(s, recipe, key, digest, remote=False, v1_first=False):
             s.check(spki == sg["pubkey"], "v2-public-key-mismatch", "public key field differs from the SubjectPublicKeyInfo of the first certificate")
             for sid, sv in sg["signatures"]:
                 alg = ref.APK_SIG_ALGS.get(sid)
-                if alg:
+                if alg and s.need("openssl"):
                     okv, verr, vcmd = t.sig_verify(spki, alg[1], sv, sg["signed_data"], pss=alg[0] == "rsa-pss")
                     s.cmd(vcmd)
+                    s.tool("openssl dgst -verify", okv)
                     s.check(okv, "v2-signature-invalid", "openssl dgst -verify rejects the v2 signature over signed-data: " + verr)
-    if v1_first:
+    if v1_first and s.need("jarsigner"):
         js = t.jarsigner(out)
         s.cmd(js["cmd"])
+        s.tool("jarsigner -verify", js["verified"])
         s.check(js["verified"], "v1-broken-by-v2", "jarsigner rejects the v1 signature after the v2 block was added: " + js["text"][-300:])
         sf = [n for n in zipfile.ZipFile(out).namelist() if n.endswith(".SF")]
         s.check(bool(sf) and b"X-Android-APK-Signed: 2" in zipfile.ZipFile(out).read(sf[0]), "v1-apk-signed-header", "X-Android-APK-Signed: 2 missing in the v1 signature file")
@@ -472,11 +550,14 @@ def scen_pgp(s, recipe, digest, mode):
     rc, txt = s.sign("rsa2048", src, out, sigtype="pgp", digest=digest, flags=flags)
     if rc != 0:
         return s.problem("C05:harness:sign-failed:pgp", "relic sign -T pgp failed: " + txt, found=False)
+    if not s.need("gpgv", "gpg"):
+        return
     kr = t.keyring(env.kit.keys["rsa2048"]["pgp"])
     orig = open(src, "rb").read()
     if mode in ("detached", "armor", "textmode", "textmode-armor"):
         good, info, text, cmd = t.gpgv(kr, out, src)
         s.cmd(cmd)
+        s.tool("gpgv", good)
         s.check(good, "gpgv-rejects-" + mode, "gpgv does not report a good signature: " + text[-300:])
         if good:
             s.check(info.get("sig_class") == ("01" if "textmode" in mode else "00"), "sig-class", "signature class %s for mode %s" % (info.get("sig_class"), mode))
@@ -484,6 +565,7 @@ def scen_pgp(s, recipe, digest, mode):
         content = env.outpath(".content")
         good, info, text, cmd = t.gpgv(kr, out, None, output=content)
         s.cmd(cmd)
+        s.tool("gpgv", good)
         s.check(good, "gpgv-rejects-" + mode, "gpgv does not report a good signature: " + text[-300:])
         got = open(content, "rb").read() if os.path.exists(content) else None
         if good and got is not None:
@@ -539,20 +621,29 @@ def scen_deb(s, recipe, digest, role=None):
     names = [n for n, _ in mem]
     s.check(names[-1:] == ["_gpg" + role] and mem[:-1] == [m for m in mo if not m[0].startswith("_gpg" + role)], "members",
             "members after signing %s (input %s): expected the input members unchanged followed by _gpg%s" % (names, [n for n, _ in mo], role))
-    rc2, o2, e2 = trun(["dpkg-deb", "-I", out])
-    s.cmd(["dpkg-deb", "-I", out])
-    s.check(rc2 == 0, "dpkg-deb-rejects", "dpkg-deb -I fails on the signed package: " + e2[-200:])
-    rc3, o3, e3 = trun(["ar", "t", out])
-    s.cmd(["ar", "t", out])
-    s.check(rc3 == 0 and o3.decode().split() == names, "ar-listing", "ar t lists %s, reference reader %s" % (o3.decode().split(), names))
+    if s.need("dpkg-deb"):
+        rc2, o2, e2 = trun(["dpkg-deb", "-I", out])
+        s.cmd(["dpkg-deb", "-I", out])
+        s.tool("dpkg-deb -I", rc2 == 0)
+        s.check(rc2 == 0, "dpkg-deb-rejects", "dpkg-deb -I fails on the signed package: " + e2[-200:])
+        rc2, o2, e2 = trun(["dpkg-deb", "--fsys-tarfile", out])
+        s.cmd(["dpkg-deb", "--fsys-tarfile", out, ">/dev/null"])
+        s.tool("dpkg-deb --fsys-tarfile", rc2 == 0)
+        s.check(rc2 == 0 and len(o2) > 0, "dpkg-deb-rejects-data", "dpkg-deb --fsys-tarfile cannot read the data member of the signed package: " + e2[-200:])
+    if s.need("ar"):
+        rc3, o3, e3 = trun(["ar", "t", out])
+        s.cmd(["ar", "t", out])
+        s.tool("ar t", rc3 == 0 and o3.decode().split() == names)
+        s.check(rc3 == 0 and o3.decode().split() == names, "ar-listing", "ar t lists %s, reference reader %s" % (o3.decode().split(), names))
     sigm = dict(mem).get("_gpg" + role)
-    if sigm is None:
+    if sigm is None or not s.need("gpgv", "gpg"):
         return
     sp = env.outpath(".asc")
     open(sp, "wb").write(sigm)
     content = env.outpath(".txt")
     good, info, text, cmd = t.gpgv(t.keyring(env.kit.keys["rsa2048"]["pgp"]), sp, None, output=content)
     s.cmd(cmd)
+    s.tool("gpgv", good)
     s.check(good, "gpgv-rejects", "gpgv does not accept the _gpg%s member: %s" % (role, text[-300:]))
     if not good:
         return
@@ -607,16 +698,18 @@ def scen_rpm(s, recipe, digest):
     def blob(tag):
         typ, off, cnt = sig[tag]
         return d[off:off + cnt]
-    kr = t.keyring(env.kit.keys["rsa2048"]["pgp"])
+    have_gpgv = s.need("gpgv", "gpg")
+    kr = t.keyring(env.kit.keys["rsa2048"]["pgp"]) if have_gpgv else None
     s.check(268 in sig and 1002 in sig, "signature-tags", "signature header lacks RSAHEADER (268) and/or PGP (1002): tags %s" % sorted(sig))
     for tag, data, what in ((268, header, "header-only"), (1002, rest, "header+payload")):
-        if tag not in sig:
+        if tag not in sig or not have_gpgv:
             continue
         sp, dp = env.outpath(".pgpsig"), env.outpath(".data")
         open(sp, "wb").write(blob(tag))
         open(dp, "wb").write(data)
         good, info, text, cmd = t.gpgv(kr, sp, dp)
         s.cmd(cmd)
+        s.tool("gpgv", good)
         s.check(good, "gpgv-rejects-%s" % what, "gpgv rejects the %s signature (tag %d): %s" % (what, tag, text[-300:]))
         if good:
             s.check(info.get("hash_algo") == PGP_HASH_IDS[digest], "hash-algorithm", "gpgv reports hash algorithm %s, requested %s" % (info.get("hash_algo"), digest))
@@ -635,6 +728,54 @@ def scen_rpm(s, recipe, digest):
     s.distinct.add(("rpm", recipe, digest))
 
 
+DSIG_NS = "http://www.w3.org/2000/09/xmldsig#"
+EC_KEYVALUE_STD = ("{http://www.w3.org/2009/xmldsig11#}ECKeyValue", "{http://www.w3.org/2001/04/xmldsig-more#}ECDSAKeyValue")
+
+
+def xml_ec_keyvalue_check(s, path):
+    """XML-DSig: ds:KeyValue holds DSAKeyValue / RSAKeyValue or an element from ANOTHER namespace (xmldsig-core schema: <any namespace="##other">);
+    EC keys are dsig11:ECKeyValue (xmldsig-core1 4.5.2.3) or RFC 4050's ECDSAKeyValue in http://www.w3.org/2001/04/xmldsig-more#.
+    returns True when every KeyValue of the document is one an outside implementation can read"""
+    import xml.etree.ElementTree as ET
+    try:
+        root = ET.parse(path).getroot()
+    except ET.ParseError:
+        return True         # well-formedness is reported separately
+    bad = []
+    for kv in root.iter("{%s}KeyValue" % DSIG_NS):
+        for c in kv:
+            if c.tag in ("{%s}RSAKeyValue" % DSIG_NS, "{%s}DSAKeyValue" % DSIG_NS) or c.tag in EC_KEYVALUE_STD:
+                continue
+            if c.tag.startswith("{%s}" % DSIG_NS):
+                bad.append(c.tag)
+    s.check(not bad, "ecdsa-keyvalue-nonstandard-element",
+            "KeyValue holds %s: an element of that name in the XML-DSig namespace is defined by no specification (XML-DSig 1.1 defines dsig11:ECKeyValue, RFC 4050 defines ECDSAKeyValue in "
+            "http://www.w3.org/2001/04/xmldsig-more#; the xmldsig-core schema admits only other-namespace elements there): an outside validator cannot read the key (JDK: 'can't convert KeyValue to PublicKey'), so a signature whose "
+            "KeyInfo has no certificate - the StrongNameSignature of a ClickOnce manifest - cannot be validated by it at all" % sorted(set(bad)))
+    return not bad
+
+
+def xml_ecdsa_verdicts(s, r, key, sid, std, kv_ok):
+    """ECDSA part shared by the XML-DSig carriers: fixed-width SignatureValue and the stock JDK validator's verdict"""
+    short = bool(r.get("ec_field_bytes")) and r.get("sigvalue_len") != 2 * r["ec_field_bytes"]
+    if r.get("ec_field_bytes"):
+        s.check(not short, "ecdsa-sigvalue-not-fixed-width:" + key,
+                "%s: SignatureValue is %s bytes, XML-DSig (xmldsig-core1 6.4.3 / RFC 4050 3.3) prescribes r||s with both integers padded to the curve's %d bytes "
+                "(lib/x509tools EcdsaSignature.Pack sizes both by the larger integer's bit length)%s" %
+                (sid, r.get("sigvalue_len"), r["ec_field_bytes"], "" if not std else "; the JDK validator, which splits any even-length value in half, %s" % ("accepts it" if r.get("full_ok") is True else "says: %s" % r.get("full_error"))))
+    if std:
+        s.tool("JDK XMLSignature.validate", r.get("full_ok") is True)
+        if r.get("full_ok") is not True:
+            if not kv_ok and "no key the JDK can read" in (r.get("full_error") or ""):
+                s.notes.append("%s (%s): the stock JDK validator finds no readable key: consequence of the non-standard ECDSAKeyValue element (reported under ecdsa-keyvalue-nonstandard-element)" % (sid, s.fmt))
+            elif short:
+                s.notes.append("%s (%s): the stock JDK validator rejects the short ECDSA SignatureValue (reported under ecdsa-sigvalue-not-fixed-width)" % (sid, s.fmt))
+            else:
+                s.check(False, "jdk-validator-rejects-ecdsa-" + (sid.lower() or "signature"), "%s: XMLSignature.validate of the JDK fails: %s" % (sid, r.get("full_error")))
+        else:
+            s.evals += 1
+
+
 def scen_manifest(s, recipe, key, digest, remote=False, ts=False):
     env, t = s.env, s.env.tools
     src, _ = env.input(recipe)
@@ -642,34 +783,40 @@ def scen_manifest(s, recipe, key, digest, remote=False, ts=False):
     rc, txt = s.sign(key, src, out, sigtype="appmanifest", digest=digest, remote=remote, conf=env.ts_conf if ts else None)
     if rc != 0:
         return s.problem("C05:harness:sign-failed:appmanifest", "relic sign failed: " + txt, found=False)
-    rcx, ox, ex = trun(["xmllint", "--noout", out])
-    s.cmd(["xmllint", "--noout", out])
-    s.check(rcx == 0, "xmllint-rejects", "xmllint: signed manifest is not well-formed: " + ex[-200:])
+    okx, ex, xcmds = t.xml_wellformed(out)
+    for c in xcmds:
+        s.cmd(c)
+    s.tool("XML parser (expat%s)" % ("+xmllint" if t.available.get("xmllint") else ""), okx)
+    s.check(okx, "xml-not-well-formed", "signed manifest is not well-formed XML: " + ex[-200:])
+    if not t.cap("jdk-xmldsig")["ok"]:
+        c = t.cap("jdk-xmldsig")
+        s.skip("JDK XML-Signature validation (appmanifest)", "capability probe failed (%s): %s" % (c["probe"], c["output"][-200:]))
+        return
     res, cmd = t.xmldsig([out])
     s.cmd(cmd)
     keytype = env.kit.keys[key]["type"]
+    kv_ok = xml_ec_keyvalue_check(s, out)
     s.check(len(res) == 2 and [r.get("id") for r in res] == ["StrongNameSignature", "AuthenticodeSignature"], "signature-elements", "expected StrongNameSignature + AuthenticodeSignature, validator saw %s" % [r.get("id") or r.get("error") for r in res])
     for r in res:
         sid = r.get("id") or "?"
         if "comp_error" in r or "error" in r:
             s.check(False, "jdk-validator-error", "%s: %s" % (sid, r.get("comp_error") or r.get("error")), found=False)
             continue
+        s.tool("JDK c14n + MessageDigest + Signature (step by step)", r.get("comp_digest_ok") is True and r.get("comp_sig_ok") is True)
         s.check(r.get("comp_digest_ok") is True, "jdk-reference-digest-mismatch", "%s: DigestValue != %s of the JDK's exclusive canonical form of the enveloped document" % (sid, r.get("digestmethod")))
         s.check(r.get("comp_sig_ok") is True, "jdk-signature-invalid", "%s: java.security.Signature %s rejects SignatureValue over the JDK-canonical SignedInfo %s" % (sid, r.get("comp_sigalg"), r.get("comp_sig_error", "")))
         std = r.get("digestmethod") in ("http://www.w3.org/2000/09/xmldsig#sha1", "http://www.w3.org/2001/04/xmlenc#sha256", "http://www.w3.org/2001/04/xmlenc#sha512",
                                         "http://www.w3.org/2001/04/xmldsig-more#sha384", "http://www.w3.org/2001/04/xmldsig-more#sha224") and \
             (r.get("sigmethod") == "http://www.w3.org/2000/09/xmldsig#rsa-sha1" or "xmldsig-more#" in (r.get("sigmethod") or ""))
-        if std:
-            # every algorithm identifier is a registered W3C/RFC 6931 one: the stock JDK validator has to accept the signature as it stands
-            if keytype == "rsa":
-                s.check(r.get("full_ok") is True, "jdk-validator-rejects", "%s: XMLSignature.validate of the JDK fails: %s" % (sid, r.get("full_error")))
-            else:
-                s.check(r.get("full_ok") is True, "jdk-validator-rejects-ecdsa-" + sid.lower(), "%s: XMLSignature.validate of the JDK fails: %s" % (sid, r.get("full_error")))
-        else:
+        if not std:
             s.notes.append("%s uses the Microsoft ClickOnce algorithm URIs (%s, %s): stock JDK validator not applicable, step-by-step JDK validation used" % (sid, r.get("sigmethod"), r.get("digestmethod")))
-        if keytype == "ecdsa" and r.get("ec_field_bytes"):
-            s.check(r.get("sigvalue_len") == 2 * r["ec_field_bytes"], "ecdsa-sigvalue-not-fixed-width:" + key,
-                    "%s: SignatureValue is %d bytes, XML-DSig (RFC 4050 / xmldsig-core1 6.4.3) prescribes r||s with both padded to %d bytes" % (sid, r.get("sigvalue_len"), r["ec_field_bytes"]))
+        # when every algorithm identifier is a registered W3C/RFC 6931 one the stock JDK validator has to accept the signature as it stands
+        if keytype == "rsa":
+            if std:
+                s.tool("JDK XMLSignature.validate", r.get("full_ok") is True)
+                s.check(r.get("full_ok") is True, "jdk-validator-rejects", "%s: XMLSignature.validate of the JDK fails: %s" % (sid, r.get("full_error")))
+        else:
+            xml_ecdsa_verdicts(s, r, key, sid, std, kv_ok)
     if ts:
         doc = open(out, "rb").read()
         m = re.search(rb"<as:Timestamp[^>]*>([^<]+)</as:Timestamp>", doc)
@@ -725,7 +872,7 @@ def scen_ps(s, recipe, key, digest, remote=False, ts=False):
         return
     s.check(text == orig, "text-changed", "script text before the signature block differs from the input")
     sd = check_p7(s, blob, digest, key, want_ctype="spcIndirectData", timestamp="msTimeStampToken" if ts else None)
-    check_indirect(s, sd, digest, "spcSipInfo", want, "script-digest-mismatch")
+    check_indirect(s, sd, digest, "spcSipInfo", want, "script-digest-mismatch", tool="reference: PowerShell script digest")
     s.distinct.add(("ps", recipe, digest, key, remote))
 
 
@@ -783,7 +930,7 @@ def scen_xap(s, recipe, key, digest, remote=False, ts=False):
         s.check(False, "trailer-malformed", "no DER blob in the appended region: %s" % e2)
         return
     sd = check_p7(s, blob, digest, key, want_ctype="spcIndirectData", timestamp="msTimeStampToken" if ts else None)
-    check_indirect(s, sd, digest, "spcSipInfo", hashlib.new(digest, orig).digest(), "xap-digest-mismatch")
+    check_indirect(s, sd, digest, "spcSipInfo", hashlib.new(digest, orig).digest(), "xap-digest-mismatch", tool="reference: XAP digest")
     s.distinct.add(("xap", recipe, digest, key, remote))
 
 
@@ -823,6 +970,7 @@ def scen_dmg(s, recipe, key, digest, remote=False, ts=False, resign=False):
         s.check(False, "reference-reader-fails", "reference UDIF / code-signature reader rejects the output: %r" % e)
         return
     s.evals += 6
+    s.tool("reference: UDIF trailer + code-signature reader", not probs)
     for sl, dd in probs:
         s.check(False, sl, dd)
     s.check(d[:to["xml_end"]] == orig[:to["xml_end"]], "image-data-changed", "image data before the signature differs from the input")
@@ -850,6 +998,7 @@ def scen_macho(s, recipe, key, digest, remote=False, ts=False, bind=True):
         for off, size in slices:
             probs, info = apple.macho_check(d[off:off + size], open(plist, "rb").read() if bind else None, open(res, "rb").read() if bind else None)
             s.evals += 4 + sum(len(cd["code"]) for cd in info["dirs"])
+            s.tool("reference: Mach-O CodeDirectory page hashes / special slots", not probs)
             for sl, dd in probs:
                 s.check(False, sl, dd)
             s.check(info.get("alg") == digest, "codedirectory-hash-type", "CodeDirectory hash type %s, requested %s" % (info.get("alg"), digest))
@@ -878,6 +1027,7 @@ def scen_xar(s, recipe, key, digest, remote=False, ts=False):
         s.check(False, "reference-reader-fails", "reference xar reader rejects the output: %r" % e)
         return
     s.evals += 3 + x["files"]
+    s.tool("reference: xar TOC checksum / heap reader", not probs)
     for sl, dd in probs:
         s.check(False, sl, dd)
     s.check(x["files"] == xo["files"], "heap-files", "%d heap files after signing, %d before" % (x["files"], xo["files"]))
@@ -886,13 +1036,14 @@ def scen_xar(s, recipe, key, digest, remote=False, ts=False):
     s.check(x["cms"] is not None, "no-cms-signature", "no x-signature style=CMS element")
     if keytype == "rsa":
         s.check(x["rsa"] is not None, "no-rsa-signature", "no classic RSA signature element for an RSA key")
-        if x["rsa"] is not None and x["certs"]:
+        if x["rsa"] is not None and x["certs"] and s.need("openssl"):
             # the classic signature is RSASSA-PKCS1-v1_5 with the TOC checksum as the (already computed) digest
             spki = der.spki_of_cert(x["certs"][0])["spki"]
             pub, sg, dg = t.put(der.pem("PUBLIC KEY", spki).encode(), ".pub.pem"), t.put(x["rsa"], ".sig"), t.put(x["checksum"], ".dgst")
             cmd = ["openssl", "pkeyutl", "-verify", "-pubin", "-inkey", pub, "-in", dg, "-sigfile", sg, "-pkeyopt", "digest:" + digest]
             rc2, o2, e2 = trun(cmd)
             s.cmd(cmd)
+            s.tool("openssl pkeyutl -verify", rc2 == 0 and b"Signature Verified Successfully" in o2)
             s.check(rc2 == 0 and b"Signature Verified Successfully" in o2, "rsa-signature-invalid", "openssl pkeyutl -verify rejects the classic signature over the TOC checksum: " + (o2.decode(errors="replace") + e2)[-200:])
     if x["cms"] is not None:
         try:
@@ -921,19 +1072,28 @@ def scen_vsix(s, recipe, key, digest, remote=False, flags=()):
         return
     sp = env.outpath(".psdsxs")
     open(sp, "wb").write(z.read(sigparts[0]))
-    rcx, ox, ex = trun(["xmllint", "--noout", sp])
-    s.cmd(["xmllint", "--noout", sp])
-    s.check(rcx == 0, "xmllint-rejects", "signature part is not well-formed XML: " + ex[-200:])
-    res, cmd = t.xmldsig([sp])
-    s.cmd(cmd)
+    okx, ex, xcmds = t.xml_wellformed(sp)
+    for c in xcmds:
+        s.cmd(c)
+    s.tool("XML parser (expat%s)" % ("+xmllint" if t.available.get("xmllint") else ""), okx)
+    s.check(okx, "xml-not-well-formed", "signature part is not well-formed XML: " + ex[-200:])
     keytype = env.kit.keys[key]["type"]
-    s.check(len(res) == 1 and "error" not in res[0], "jdk-validator-error", "validator output: %s" % res[:1], found=False)
+    res = []
+    if t.cap("jdk-xmldsig")["ok"]:
+        res, cmd = t.xmldsig([sp])
+        s.cmd(cmd)
+        s.check(len(res) == 1 and "error" not in res[0], "jdk-validator-error", "validator output: %s" % res[:1], found=False)
+    else:
+        c = t.cap("jdk-xmldsig")
+        s.skip("JDK XML-Signature validation (vsix)", "capability probe failed (%s): %s" % (c["probe"], c["output"][-200:]))
+    kv_ok = xml_ec_keyvalue_check(s, sp)
     if len(res) == 1 and "error" not in res[0]:
         r = res[0]
-        if keytype == "rsa" or r.get("full_ok"):
+        if keytype == "rsa":
+            s.tool("JDK XMLSignature.validate", r.get("full_ok") is True)
             s.check(r.get("full_ok") is True, "jdk-validator-rejects", "XMLSignature.validate of the JDK fails: %s refs=%s sigvalue=%s" % (r.get("full_error"), r.get("full_refs"), r.get("full_sigvalue")))
         else:
-            s.check(r.get("full_ok") is True, "jdk-validator-rejects-ecdsa", "XMLSignature.validate of the JDK fails on the ECDSA-signed package signature: %s refs=%s sigvalue=%s" % (r.get("full_error"), r.get("full_refs"), r.get("full_sigvalue")))
+            xml_ecdsa_verdicts(s, r, key, "package signature", True, kv_ok)
     # the Manifest inside the signed Object: one Reference per package part, digest over the part's bytes
     doc = z.read(sigparts[0]).decode("utf-8")
     refs = re.findall(r'<Reference URI="(/[^"?]*)\?ContentType=([^"]*)">(.*?)</Reference>', doc, flags=re.S)
@@ -950,7 +1110,7 @@ def scen_vsix(s, recipe, key, digest, remote=False, flags=()):
         if part is None:
             continue
         nplain += 1
-        s.check(base64.b64encode(hashlib.new(m.group(1), z.read(part)).digest()).decode() == dv.group(1).strip(), "part-digest-mismatch", "DigestValue of %s != %s of the part" % (uri, m.group(1)))
+        s.check(s.tool("reference: OPC part digests", base64.b64encode(hashlib.new(m.group(1), z.read(part)).digest()).decode() == dv.group(1).strip()), "part-digest-mismatch", "DigestValue of %s != %s of the part" % (uri, m.group(1)))
     payload = [n for n in z.namelist() if not n.endswith("/") and not n.startswith("package/services/digital-signature/") and n != "[Content_Types].xml" and not n.endswith(".rels")]
     listed = set(unquote(u).lstrip("/") for u, _, _ in refs) if refs else set()
     missing = [n for n in payload if n not in listed]
@@ -981,9 +1141,11 @@ def scen_appx(s, recipe, key, digest, remote=False, ts=False):
         z = zipfile.ZipFile(io.BytesIO(d))
         bad = z.testzip()
         s.check(bad is None, "zip-crc", "zip CRC error in %s after signing" % bad)
-        rc2, o2, e2 = trun(["unzip", "-tqq", out])
-        s.cmd(["unzip", "-tqq", out])
-        s.check(rc2 == 0, "unzip-rejects", "unzip -t reports errors: " + (o2.decode(errors="replace") + e2)[-200:])
+        if s.need("unzip"):
+            rc2, o2, e2 = trun(["unzip", "-tqq", out])
+            s.cmd(["unzip", "-tqq", out])
+            s.tool("unzip -t", rc2 == 0)
+            s.check(rc2 == 0, "unzip-rejects", "unzip -t reports errors: " + (o2.decode(errors="replace") + e2)[-200:])
         want, facts = ref.appx_reference(d, digest)
         bprobs, nblocks = ref.appx_blockmap_check(d)
         p7x = z.read("AppxSignature.p7x")
@@ -991,6 +1153,7 @@ def scen_appx(s, recipe, key, digest, remote=False, ts=False):
         s.check(False, "reference-reader-fails", "reference APPX reader rejects the output: %r" % e)
         return
     s.evals += nblocks + facts["entries"]
+    s.tool("reference: APPX block map", not bprobs)
     for sl, dd in bprobs:
         s.check(False, sl, dd)
     s.check(p7x[:4] == b"PKCX", "p7x-magic", "AppxSignature.p7x does not start with PKCX")
@@ -1002,6 +1165,7 @@ def scen_appx(s, recipe, key, digest, remote=False, ts=False):
         s.check(got[:4] == b"APPX" and len(got) == len(want), "appx-digest-layout", "digest blob is %d bytes starting %r, reference has %d" % (len(got), got[:4], len(want)))
         for i in range(4, min(len(got), len(want)), 4 + hl):
             tag = want[i:i + 4].decode()
+            s.tool("reference: APPX digests (AXPC/AXCD/AXCT/AXBM/AXCI)", got[i:i + 4 + hl] == want[i:i + 4 + hl])
             s.check(got[i:i + 4 + hl] == want[i:i + 4 + hl], "appx-%s-mismatch" % tag.lower(), "%s digest in the signature %s != reference %s" % (tag, got[i + 4:i + 4 + hl].hex(), want[i + 4:i + 4 + hl].hex()),
                     embedded=got[i + 4:i + 4 + hl].hex(), reference=want[i + 4:i + 4 + hl].hex())
     # the code-integrity catalog: a signed CTL whose members are the Authenticode hashes of the PE files in the package
@@ -1029,6 +1193,7 @@ def scen_appx(s, recipe, key, digest, remote=False, ts=False):
                         pes[n] = ref.pe_image_hash(data, digest)
                     except (ref.RefError, struct.error):
                         pass
+            s.tool("reference: Authenticode PE image hash", members == set(pes.values()))
             s.check(members == set(pes.values()), "catalog-members-mismatch", "catalog member hashes %s != reference Authenticode hashes of the package's PE files %s" %
                     (sorted(m.hex()[:16] for m in members), {k: v.hex()[:16] for k, v in pes.items()}))
     s.distinct.add(("appx", recipe, digest, key, remote, ts))
@@ -1162,7 +1327,7 @@ def matrix(tier, seed=1):
     # ---- randomised well-formed inputs (seeded by VERIF_SEED): layout parameters, key, digest and flags drawn at random
     import random
     R = random.Random(seed * 1000003 + (7 if T else 0))
-    nrand = 60 if T else 12
+    nrand = 250 if T else 12
     for i in range(nrand):
         n = seed * 100000 + i
         k = R.choice(keys_all)
@@ -1213,8 +1378,158 @@ def run_one(env, fmt, params, idx):
     return s
 
 
+def probe_tools(env):
+    """Capability probes: every reference tool is first shown material that does NOT come from relic (fixtures signed by Microsoft's
+    tools, a signature made by OpenSSL itself).  A tool that rejects the genuine article cannot be the judge of relic's output: the
+    sub-checks relying on it are skipped and listed under coverage.skipped with the probe's output."""
+    t = env.tools
+    pk = e2e.PKGS
+    try:
+        z = zipfile.ZipFile(os.path.join(pk, "App1_1.0.3.0_x64.appx"))
+        p7x = z.read("AppxSignature.p7x")
+        spc = p7x[4:] if p7x[:4] == b"PKCX" else None
+    except (OSError, KeyError, zipfile.BadZipFile):
+        spc = None
+    t.probe_p7("spcIndirectData", spc, "AppxSignature.p7x of functest/packages/App1_1.0.3.0_x64.appx (made by Microsoft's signtool)")
+    try:
+        cat = open(os.path.join(pk, "hyperv.cat"), "rb").read()
+    except OSError:
+        cat = None
+    t.probe_p7("ctl", cat, "functest/packages/hyperv.cat as shipped (signed by Microsoft)")
+    own, oerr = (None, "openssl not installed")
+    if t.available["openssl"]:
+        own, oerr = t.openssl_sign_data(os.path.join(e2e.KEYS, "rsa2048.key"), os.path.join(e2e.KEYS, "rsa2048.crt"), b"probe content\r\n" * 7)
+    if own is None:
+        t.set_cap("openssl-smime-verify:data", False, "openssl smime -sign", "could not make probe material: " + oerr[-200:])
+        t.set_cap("openssl-cms-verify:data", False, "openssl smime -sign", "could not make probe material: " + oerr[-200:])
+    else:
+        t.probe_p7("data", own, "SignedData over id-data made by `openssl smime -sign` of the same installation")
+        t.probe_cms(own, "SignedData over id-data made by `openssl smime -sign` of the same installation")
+    # JDK XML-Signature validator: the signature part of the fixture VSIX was made by Visual Studio's signing tool
+    if not (t.available["java"] and t.available["javac"]):
+        t.set_cap("jdk-xmldsig", False, "java/javac", "java or javac not installed")
+    elif not t.javac():
+        t.set_cap("jdk-xmldsig", False, "javac harness/ref/XmlDsigVerify.java", t.java_err)
+    else:
+        try:
+            z = zipfile.ZipFile(os.path.join(pk, "VSIXProject1.vsix"))
+            part = [n for n in z.namelist() if n.endswith(".psdsxs")][0]
+            sp = t.put(z.read(part), ".psdsxs")
+            res, cmd = t.xmldsig([sp])
+            ok = len(res) == 1 and res[0].get("full_ok") is True
+            t.set_cap("jdk-xmldsig", ok, "signature part of functest/packages/VSIXProject1.vsix as shipped through harness/ref/XmlDsigVerify.java", "accepted" if ok else json.dumps(res)[:300])
+        except (OSError, IndexError, zipfile.BadZipFile) as e:
+            t.set_cap("jdk-xmldsig", False, "VSIX fixture", "no probe material: %r" % e)
+
+
+def keep_artefacts(ctx, s, dest):
+    """copies the files a failed scenario's command lines refer to (input, relic's output, the blobs handed to the tools, relic's
+    configuration and keys) out of the scratch directory and returns (artefact map, command lines rewritten to the kept copies)"""
+    kept, total = {}, 0
+    root = ctx.scratch.rstrip("/")
+    paths = set(p for p in s.artefacts.values() if p)
+    for c in s.cmds:
+        for tok in c.split():
+            tok = tok.split("=", 1)[-1]
+            if tok.startswith(root + "/") and os.path.isfile(tok):
+                paths.add(tok)
+    for p in sorted(paths):
+        if p.startswith(root + "/") and p.endswith(".yml"):
+            d = os.path.dirname(p)
+            e2edir = os.path.join(root, "e2e")
+            for extra in [os.path.join(e2edir, f) for f in (os.listdir(e2edir) if os.path.isdir(e2edir) else []) if f.endswith((".key", ".crt", ".yml"))]:
+                paths.add(extra)
+    for p in sorted(paths):
+        if not os.path.isfile(p):
+            continue
+        size = os.path.getsize(p)
+        if total + size > 64 << 20:
+            kept[p] = "not kept (size limit)"
+            continue
+        if p.startswith(root + "/"):
+            q = os.path.join(dest, os.path.relpath(p, root))
+            os.makedirs(os.path.dirname(q), exist_ok=True)
+            if p.endswith(".yml"):
+                open(q, "w").write(open(p).read().replace(root, dest))
+            else:
+                shutil.copyfile(p, q)
+            kept[q] = hashlib.sha256(open(p, "rb").read()).hexdigest()
+            total += size
+        else:
+            kept[p] = hashlib.sha256(open(p, "rb").read()).hexdigest()      # fixture in the repository: referenced in place
+    roles = {k: (v.replace(root, dest) if v else v) for k, v in s.artefacts.items()}
+    return {"files_sha256": kept, "roles": roles, "note": "relic's server for `remote sign` and the local TSA are not running outside the check: use --replay for those"}, \
+        [c.replace(root, dest) for c in s.cmds]
+
+
+# Theorems proved under other properties that carry C05's claim "relic's digest/encoding = the specification's" for parts that are not
+# (yet) covered by a byte-level format module: (generator, directory, theorem names).  They are rebuilt here against the current /repo
+# (srcgen regenerates the constants / decision functions they are stated over), so a change of relic that breaks one of them breaks C05.
+BORROWED = [
+    ("C09_gen", "C09", ["merkle_eq_spec",            # APK v2: streaming chunk tree = Android's definition (1 MiB chunks, 0xa5 / 0x5a prefixes, sections 1,3,4)
+                        "page_preimage_eq_spec", "pagehash_split_indep",     # Authenticode page hashes = specification's pages, zero fill
+                        "cksum_split_indep",          # PE checksum = published algorithm for every split into writes
+                        "blockmap_split_indep",       # AppX block map = 64 KiB blocks
+                        "codepages_split_indep"]),    # Mach-O CodeDirectory = 4 KiB pages
+    ("C16_gen", "C16", ["attr_digest_parsed", "attr_digest_built",           # signed-attributes preimage = emitted [0] field re-tagged 0x31 (RFC 5652 5.4)
+                        "builder_no_attrs", "builder_preimage"]),            # what is signed with / without attributes
+]
+
+
+def borrowed_proofs(ctx, frag):
+    """adds the BORROWED theorems to the proof fragment returned by formats.proof_part"""
+    from vlib.common import COQ, FORBIDDEN
+    unit, ctx.unit = ctx.unit, "c05"
+    try:
+        ctx.srcgen([g for g, _, _ in BORROWED])
+    finally:
+        ctx.unit = unit
+    targets = ["%s/Properties.vo" % d for _, d, _ in BORROWED]
+    built, log = ctx.coq_build(targets)
+    thms, discharged, bad = [], 0, []
+    for gen, d, names in BORROWED:
+        broken = (ctx.srcgen_summary.get("broken_by_file") or {}).get(gen, [])
+        hyg = ctx.hygiene([d])
+        gv = os.path.join(COQ, "Generated", gen + ".v")
+        if os.path.exists(gv):
+            hyg += ["%s: %s" % (gv, m.group(0)) for m in FORBIDDEN.finditer(re.sub(r"\(\*.*?\*\)", "", open(gv).read(), flags=re.S))]
+        present = ctx.theorems("%s/Properties.v" % d)
+        missing = [n for n in names if n not in present]
+        ok = built.get("%s/Properties.vo" % d, False) and not hyg and not broken and not missing
+        thms += ["%s.%s" % (d, n) for n in names]
+        if ok:
+            discharged += len(names)
+        else:
+            bad.append((d, broken or hyg or missing or ["%s/Properties.vo does not build" % d]))
+    for d, what in bad:
+        ctx.violation("C05:proof:%s" % d.lower(), "theorems of %s that C05 relies on no longer check against this /repo: %s" % (d, what), {"broken": what, "coq_log_tail": log[-1500:]}, False)
+    assum = []
+    for _, d, _ in BORROWED:
+        if built.get("%s/Properties.vo" % d):
+            assum += [l.strip() for l in ctx.assumptions("%s/Properties.v" % d).splitlines() if l.strip()]
+    had = list(frag.get("theorems") or [])
+    frag["theorems"] = had + thms
+    frag["obligations"] = len(had) + len(thms)
+    frag["discharged"] = (frag.get("discharged", 0) if had else 0) + discharged
+    frag["laws_pipeline_built"] = not any(k == "C05:proof:laws" for _, _, _, k in ctx.violations)
+    frag["checker_cmd"] = frag.get("checker_cmd", "") + " ; make -C /verif/coq " + " ".join(targets)
+    frag["trusted_base"] = list(frag.get("trusted_base", [])) + ["Print Assumptions (%s): %s" % ("+".join(d for _, d, _ in BORROWED), " | ".join(sorted(set(assum)))[:400] or "n/a")]
+    frag["proof_scope"] = ("proved: APK v2 chunked digest, PE page-hash pages and padding, PE checksum, AppX block map, Mach-O code pages (C09), signed-attribute preimage (C16), "
+                           "plus the *_eq_spec refinements of the enabled byte-level format modules %s; every other digest/encoding of the property statement is covered by the "
+                           "differential half only (reference implementations and specification-derived computations on relic's real output)" % (formats.ENABLED or "[none enabled yet]"))
+    return frag
+
+
 def run(ctx, replay=None):
+    from vlib.common import OUT
+    rdir = os.path.join(OUT, "replay", "C05")
+    if not replay and os.path.isdir(rdir):
+        # replay/C05 holds the replays (and kept artefacts) of the latest full run only
+        for fn in os.listdir(rdir):
+            q = os.path.join(rdir, fn)
+            shutil.rmtree(q, ignore_errors=True) if os.path.isdir(q) else os.unlink(q)
     frag, units = formats.proof_part(ctx)
+    frag = borrowed_proofs(ctx, frag)
     kit = e2e.Kit(ctx, with_server=True)
     if kit.build_error:
         ctx.violation("C05:relic-build", "relic binary / probe does not build: " + kit.build_error[-400:], {"stderr": kit.build_error[-2000:]}, False)
@@ -1223,56 +1538,81 @@ def run(ctx, replay=None):
     tools = Tools(os.path.join(ctx.scratch, "c05tools"))
     env = Env(ctx, kit, tools)
     env.tsa = TSA(os.path.join(ctx.scratch, "c05tsa"))
+    skipped = {}
+
+    def skip(what, reason, n=1):
+        e = skipped.setdefault(what, {"reason": reason, "count": 0})
+        e["count"] += n
     if env.tsa.error:
         ctx.notes.append("local TSA could not be set up (%s): timestamp scenarios skipped" % env.tsa.error)
     else:
         env.ts_conf = env.tsa.relic_config(kit.conf, os.path.join(ctx.scratch, "c05", "relic-ts.yml"))
-    M = [(f, p) for f, p in matrix(ctx.tier, ctx.seed) if not p.get("ts") or env.ts_conf]
+    M0 = matrix(ctx.tier, ctx.seed)
+    M = [(f, p) for f, p in M0 if not p.get("ts") or env.ts_conf]
+    if len(M) < len(M0):
+        skip("RFC 3161 timestamp scenarios (openssl ts -reply behind a local HTTP server)", "local TSA could not be set up: %s" % env.tsa.error, len(M0) - len(M))
     if replay:
         try:
             rp = json.load(open(replay))
             M = [(rp["scenario"]["format"], rp["scenario"]["params"])]
         except (OSError, KeyError, ValueError) as e:
             ctx.notes.append("replay file unusable (%s); running the full matrix" % e)
-    missing = [t for t, ok in tools.available.items() if not ok]
+            replay = None
     results = []
     try:
-        tools.javac()
+        probe_tools(env)
         with concurrent.futures.ThreadPoolExecutor(max_workers=14) as ex:
             futs = [ex.submit(run_one, env, fmt, params, i) for i, (fmt, params) in enumerate(M)]
             results = [f.result() for f in futs]
+        # ---------------------------------------------------------------- verdicts (scratch still exists: artefacts are kept for reported problems)
+        per_fmt, distinct, evals, toolacc, by_key = {}, set(), 0, {}, {}
+        for s in results:
+            f = per_fmt.setdefault(s.fmt, {"scenarios": 0, "evaluations": 0, "problems": 0})
+            f["scenarios"] += 1
+            f["evaluations"] += s.evals
+            f["problems"] += len(s.problems)
+            evals += s.evals
+            distinct |= s.distinct
+            for name, (a, r) in s.tools.items():
+                e = toolacc.setdefault(name, {"accepted": 0, "rejected": 0})
+                e["accepted"] += a
+                e["rejected"] += r
+            for what, reason in s.skips:
+                skip(what, reason)
+            for pr in s.problems:
+                by_key.setdefault(pr["key"], []).append((s, pr))
+        known = set(k["key"] for k in ctx.known if k.get("status") == "finding" and k.get("property") == ctx.pid)
+        for key, items in sorted(by_key.items()):
+            # one report per key: the first occurrence is the replay, the others are counted and listed
+            s, pr = items[0]
+            rep = {"scenario": {"format": s.fmt, "params": s.params}, "command_lines": s.cmds, "observed": pr["detail"], "extra": pr["extra"],
+                   "occurrences": len(items), "other_scenarios": [{"format": s2.fmt, "params": s2.params} for s2, _ in items[1:6]],
+                   "inputs": {r: h for r, (p, h) in env.inputs.items() if r == s.params.get("recipe")},
+                   "how_to_replay": "cd /verif && bin/check C05 --replay <this file>   (rebuilds the input from its recipe with vlib/c05_inputs.build, signs and checks it again); "
+                                    "or run command_lines by hand on the kept artefacts"}
+            if key not in known:
+                h = hashlib.sha256(json.dumps([key, s.fmt, s.params], sort_keys=True, default=str).encode()).hexdigest()[:12]
+                try:
+                    rep["artefacts"], rep["command_lines"] = keep_artefacts(ctx, s, os.path.join(rdir, h + ".d"))
+                except OSError as e:
+                    rep["artefacts"] = {"error": "could not keep artefacts: %r" % e}
+            ctx.violation(key, pr["detail"] + ("" if len(items) == 1 else "   [%d occurrences]" % len(items)), rep, pr["found"])
     finally:
         kit.close()
         env.tsa.close()
-    # ---------------------------------------------------------------- verdicts
-    per_fmt, distinct, evals, suspected = {}, set(), 0, {}
-    for s in results:
-        f = per_fmt.setdefault(s.fmt, {"scenarios": 0, "evaluations": 0, "problems": 0})
-        f["scenarios"] += 1
-        f["evaluations"] += s.evals
-        f["problems"] += len(s.problems)
-        evals += s.evals
-        distinct |= s.distinct
-        for pr in s.problems:
-            rep = {"scenario": {"format": s.fmt, "params": s.params}, "command_lines": s.cmds, "observed": pr["detail"], "extra": pr["extra"],
-                   "inputs": {r: h for r, (p, h) in env.inputs.items() if r == s.params.get("recipe")},
-                   "how_to_replay": "cd /verif && bin/check C05 --replay <this file>   (rebuilds the input from its recipe with vlib/c05_inputs.build, signs with the command lines above)"}
-            if pr["key"] in SUSPECTED:
-                suspected.setdefault(pr["key"], []).append((pr["detail"], rep))
-            else:
-                ctx.violation(pr["key"], pr["detail"], rep, pr["found"])
-    from vlib.common import OUT
-    for key, items in sorted(suspected.items()):
-        # a replay file is written for the main agent's decision, but the finding does not count as a violation
-        os.makedirs(os.path.join(OUT, "replay", "C05"), exist_ok=True)
-        rp = os.path.join(OUT, "replay", "C05", "suspected-%s.json" % slug(key.split(":", 2)[2]))
-        json.dump(dict(items[0][1], property="C05", key=key, detail=items[0][0], occurrences=len(items), status="suspected-defect", tier=ctx.tier), open(rp, "w"), indent=1, default=str)
-        print("SUSPECTED-DEFECT: property=C05 %s (%d occurrences) replay=%s" % (key, len(items), rp))
-        print("#   " + items[0][0][:400])
-        print("#   reproduce: " + " ; ".join(items[0][1]["command_lines"][:3])[:900])
+    missing = [t for t, ok in tools.available.items() if not ok]
+    for t in missing:
+        if t == "xmllint":
+            skip("xmllint --noout as a second XML well-formedness opinion", "xmllint not installed in this sandbox; well-formedness is judged by expat (python xml.parsers.expat)", sum(1 for s in results if s.fmt in ("appmanifest", "vsix")))
     if missing:
         ctx.notes.append("reference tools missing in this sandbox: %s" % missing)
     slow = sorted(results, key=lambda s: -s.wall)[:3]
+    # samples: one scenario per format, with the command lines handed to the outside tools
+    seen_fmt, samples = set(), []
+    for s in sorted(results, key=lambda s: len(s.problems)):
+        if s.fmt not in seen_fmt:
+            seen_fmt.add(s.fmt)
+            samples.append({"format": s.fmt, "params": s.params, "evaluations": s.evals, "tools": {k: v for k, v in s.tools.items()}, "commands": [c.replace(ctx.scratch, "$SCRATCH")[:300] for c in s.cmds[:4]]})
     cov = dict(frag)
     cov.update({"evaluations": evals, "distinct_nontrivial": len(distinct),
                 "rule": "format x input (fixtures of /repo/functest/packages + harness-generated: PE32/PE32+ images with 1-4 sections, overlays of odd size, 8 KiB-page machine; "
@@ -1280,18 +1620,27 @@ def run(ctx, replay=None):
                         "cutoff; APKs whose contents section ends at 1 MiB-1, 1 MiB, 1 MiB+1, 2 MiB, 3 MiB-7; JARs with 300 members, names forcing 1-3 continuation lines incl. multi-byte "
                         "characters on the fold, LF manifests, pre-existing sections; texts with CRLF, dash-escapes, trailing blanks) x key (RSA 2048/3072, P-256/384/521) x digest "
                         "(sha1/224/256/384/512) x flags (--page-hashes, --sections-only, --inline-signature, --apk-v2-present, --key-alias, --no-extended-sig, PGP armor/textmode/inline/clearsign, "
-                        "DEB roles) x transport (standalone, remote via relic serve) x re-signing; non-trivial = distinct (format, input, key type, digest, flags, transport) combinations that reached the oracle",
-                "samples": [{"format": s.fmt, "params": s.params, "evaluations": s.evals, "commands": s.cmds[:2]} for s in results[:3]],
-                "per_format": per_fmt, "scenarios": len(results), "suspected_defects": {k: len(v) for k, v in suspected.items()},
+                        "DEB roles) x transport (standalone, remote via relic serve) x re-signing x RFC 3161 timestamping; quick = covering subset (every format, every reference tool, every key type and "
+                        "digest at least once, all boundary inputs), thorough = the products; non-trivial = distinct (format, input, key type, digest, flags, transport) combinations that reached the oracle",
+                "samples": samples,
+                "per_format": per_fmt, "scenarios": len(results),
+                "reference_tool_verdicts": toolacc,
+                "skipped": skipped,
+                "capability_probes": tools.caps,
+                "reported_keys": {k: len(v) for k, v in by_key.items()},
                 "slowest_scenarios": [{"format": s.fmt, "params": s.params, "wall_s": round(s.wall, 1)} for s in slow],
-                "reference_tools": tools.available, "notes_from_scenarios": sorted(set(n for s in results for n in s.notes))[:20]})
+                "reference_tools": tools.available, "reference_tool_versions": tools.versions,
+                "notes_from_scenarios": sorted(set(n for s in results for n in s.notes))[:20]})
     cov["trusted_base"] = list(cov.get("trusted_base", [])) + [
-        "reference implementations: OpenSSL 3.5 (smime/cms/dgst/asn1parse/ts), JDK 17 jarsigner + javax.xml.crypto + java.security, GnuPG gpgv, dpkg-deb, ar, xmllint, python zipfile",
-        "reference computations vlib/c05_ref.py / c05_der.py transcribed from the Authenticode, PE/COFF, MS-CAB, MS-CFB, APK v2, JAR, RFC 2315/5652, X.690 specifications (MSI ordering and the CAB/MSI "
+        "reference implementations as installed (versions under reference_tool_versions): OpenSSL smime/cms/dgst/asn1parse/ts/pkeyutl, JDK jarsigner + javax.xml.crypto + java.security, GnuPG gpgv, dpkg-deb, ar, unzip, "
+        "python zipfile + expat; each one first has to accept genuine third-party material (capability_probes) before it is allowed to judge relic's output",
+        "reference computations vlib/c05_ref.py / c05_der.py / c05_apple.py transcribed from the Authenticode, PE/COFF, MS-CAB, MS-CFB, APK v2, JAR, RFC 2315/5652, X.690 specifications (MSI ordering and the CAB/MSI "
         "signature digests have no public specification: the algorithms documented by osslsigncode are used)",
         "JDK policy jdk.jar.disabledAlgorithms lifted for SHA-1 runs only (structure, not policy, is under test)"]
     assumptions = ["chain validation is out of scope here (self-signed test certificates): reference tools run with -noverify / explicit keyrings",
                    "ClickOnce manifests: SHA-2 algorithm URIs are the Microsoft-specific ones .NET writes; the stock JDK validator is applicable to the SHA-1 forms only, "
                    "the SHA-2 forms are validated step by step with the JDK canonicaliser, MessageDigest and Signature",
-                   "no reference tool for Authenticode page hashes, MSI, CAB, APK v2 exists in the sandbox (no osslsigncode/apksigner/signtool): specification-derived Python references are the oracle there"]
+                   "no reference tool for Authenticode page hashes, MSI, CAB, APK v2 exists in the sandbox (no osslsigncode/apksigner/signtool): specification-derived Python references are the oracle there",
+                   "where the installed OpenSSL cannot verify SignedData with non-OCTET-STRING content as a whole (3.0/3.1: it rejects Microsoft's own signatures), acceptance is established piecewise: "
+                   "messageDigest attribute = H(content octets) by the Python DER reader, signature over the re-tagged attributes by `openssl dgst -verify`, timestamp tokens by `openssl ts -verify`"]
     return ctx.finish("proof", cov, assumptions)
